@@ -330,7 +330,9 @@ def run_pt(sc, sched, canonical=False, want_trace=False):
                     expected = None if expected is None else [e + op[1] for e in expected]
                 elif name == "run_for":
                     out["timed"] = True
+                    t_call = sim.now
                     L('run_for', pt.run_for, minutes=op[1], swap_interval=op[2])
+                    out.setdefault("timed_ops", []).append((op[1] * 60.0, sim.now - t_call))
                     expected = None
                 elif name == "return_chains":
                     got = L('return_chains', pt.return_chains)
